@@ -2696,3 +2696,10 @@ M("C17", "r10/constructor-parameter-inserted-before-forwarded-positionals", ALI,
                  ):
         \"\"\"
         Alignment constructor.""", "R-C17-4", "SoftAlignment forwards positionally: check_validity lands in the new slot")
+
+# probes of the alias / effect analysis itself: unusual spellings of "mutate the continuum an alignment is attached to"
+for _q, _what in (("q1", "bound mutator taken as a value and called later"), ("q2", "walrus-bound alias updated"), ("q3", "comprehension used for its side effect"),
+                  ("q4", "setattr on the continuum"), ("q5", "explicit __ior__ on an alias"), ("q7", "bound package method called through a local"),
+                  ("q11", "getattr with a constant name"), ("q12", "vars(obj)[...]"), ("q16", "random.shuffle / np.random.shuffle of an alias"),
+                  ("q17", "obj.__dict__.update(...)")):
+    VARIANTS.append(dict(prop="C14", id=f"around/alias-{_q}", kind="M", rule="R-C14-1", patch=_os.path.join(_HP, f"alias-{_q}.diff"), note=_what))
